@@ -49,6 +49,65 @@ def EachOnce(registered, new):
     return [e for e in new] == list(registered)
 
 
+# ---- the receive loop on a scripted connection (bounded stand-in only): the cache mirrors the last message per parameter
+def now():
+    import time
+    return time.time()
+
+
+def RxExpected(client, script, known, t0, t1):
+    """the oracle taken from C12: per parameter the import of the last update / error update / read reply / change reply / read error
+    (module-only specifiers stand for :value resp. :target); a message whose value cannot be imported changes nothing.
+    Returns {key: (value, timestamp or None when the message had none, error class name or None)} and the applied sequence."""
+    state, applied = {}, []
+    for action, ident, data in script:
+        if action not in ('update', 'reply', 'changed', 'error_update', 'error_read'):
+            continue
+        key = known.get(ident)
+        if key is None and ':' not in (ident or ''):
+            key = known.get(f"{ident}:{'target' if action == 'changed' else 'value'}")
+        if key is None:
+            continue
+        dt = client.modules[key[0]]['parameters'][key[1]]['datatype']
+        if action.startswith('error_'):
+            entry = (None, data[2].get('t'), data[0])
+        else:
+            try:
+                entry = (dt.import_value(data[0]), data[1].get('t'), None)
+            except Exception:
+                continue
+        state[key] = entry
+        applied.append((key, entry))
+    return state, applied
+
+
+def EntryMatches(item, entry, t0, t1):
+    value, t, errname = entry
+    if errname is None:
+        if item.readerror is not None or not (item.value == value and type(item.value) is type(value)):
+            return False
+    elif item.readerror is None or type(item.readerror).__name__ != errname + 'Error' and type(item.readerror).name != errname:
+        return False
+    if t is None or t > t1:
+        return t0 <= item.timestamp <= t1          # the time of arrival stands in; never in the future
+    return item.timestamp == t if t <= t0 else item.timestamp <= t1
+
+
+def RxMirror(client, cache, script, known, t0, t1):
+    state, _ = RxExpected(client, script, known, t0, t1)
+    return set(cache) == set(state) and all(EntryMatches(cache[k], e, t0, t1) for k, e in state.items())
+
+
+def RxNoFuture(cache, t1):
+    return all(item.timestamp <= t1 for item in cache.values())
+
+
+def RxCallbacks(client, calls, script, known, t0, t1):
+    """the node-level updateItem callback saw every applied message exactly once, in arrival order"""
+    _, applied = RxExpected(client, script, known, t0, t1)
+    return len(calls) == len(applied) and all(c[0] == k and EntryMatches(c[1], e, t0, t1) for c, (k, e) in zip(calls, applied))
+
+
 CONTRACTS = [
     dict(key='iface::DataType.import_value', file=None, func=None, signature='self, value', serves=[], trusted=True, requires=[],
          ensures={'imported': 'same_value(result, IMPORTED(self, value))'}, raises={}),
@@ -90,6 +149,13 @@ CONTRACTS = [
                   'unregistered_gone': 'all(f not in self.callbacks[cbname].get(key, []) for f in one_shot)',
                   'others_kept': 'all(f in self.callbacks[cbname].get(key, []) for f in registered_before if f not in one_shot and f not in removes_other)',
                   'result': 'result == bool(self.callbacks[cbname].get(key, []))'},
+         raises='never'),
+    # the reader thread's body on a scripted connection: every message of the script is taken, the loop ends with the connection
+    dict(key='SecopClient.__rxthread', vc=False, file='frappy/client/__init__.py', func='SecopClient.__rxthread', serves=['C12'],
+         self_type='SecopClient', requires=[],
+         ensures={'mirror': 'RxMirror(self, cache_view, script, known, t_start, now())',
+                  'never_in_future': 'RxNoFuture(cache_view, now())',
+                  'callbacks_in_order': 'RxCallbacks(self, item_calls, script, known, t_start, now())'},
          raises='never'),
 ]
 LOOPS = {}
